@@ -190,15 +190,20 @@ func runIOWriter(c *IOCase, x *sim.Ctx) *sim.Violation {
 	}
 	pr := sim.NewRng(c.PartialSeed)
 	for _, k := range ks {
-		for variant := 0; variant < 4; variant++ {
+		// variants: bit 0 fail forever, bit 1 a prefix persisted first;
+		// 4 and 5: the failing call reports its full byte count with the error
+		for variant := 0; variant < 6; variant++ {
 			partial := pr.Range(1, 64)
-			if c.HasOnly && c.Only != k*4+variant {
+			if c.HasOnly && c.Only != k*6+variant {
 				continue
 			}
 			plan := simio.SinkPlan{FailAt: k, Forever: variant&1 == 1, ByteWriter: c.W.Sink.ByteWriter, Kind: "EIO"}
 			if variant&2 != 0 {
 				plan.Partial = partial
 				plan.Kind = "ENOSPC"
+			}
+			if variant >= 4 {
+				plan.FullCount, plan.Partial = true, 0
 			}
 			fw := w
 			fw.Sink = plan
@@ -221,6 +226,9 @@ func runIOWriter(c *IOCase, x *sim.Ctx) *sim.Violation {
 			if plan.Partial > 0 {
 				kind += "-partial"
 			}
+			if plan.FullCount {
+				kind += "-full-count"
+			}
 			x.Fault(kind)
 			st := sinkStructure(w.Format, base.Sink.Image, len(res.Sink.Image))
 			x.Count("fault-while-writing."+w.Format+"."+st, 1)
@@ -242,7 +250,7 @@ func runIOWriter(c *IOCase, x *sim.Ctx) *sim.Violation {
 			}
 			if v != nil {
 				nc := *c
-				nc.HasOnly, nc.Only = true, k*4+variant
+				nc.HasOnly, nc.Only = true, k*6+variant
 				v.Narrow = &nc
 				return v
 			}
